@@ -342,7 +342,7 @@ class IndexArray(Family):
     serves = ["C01", "C07", "C19"]
     timeout_ms = 30000
     assumed = ["numpy.bincount contract", "numpy.cumsum = prefix sums",
-               "lemma (unproved, standard): every flat position j < S(n) lies in exactly one (non-empty) row"]
+               "lemma partition-point (existence of the row containing a flat position; proved by induction in vf.proofs.lemmas)"]
 
     def run(self, ctx, kind):
         g = sym_shape(ctx)
